@@ -10,6 +10,7 @@ package main
 import (
 	"bufio"
 	"encoding/hex"
+	"flag"
 	"fmt"
 	"os"
 	"os/exec"
@@ -367,8 +368,12 @@ func runNodeCase(height int64, kills, truncs []string) string {
 		// kill points are timing dependent: keep the witness (the journal) and answer the same way if
 		// this op is executed again in this process (shrinking, writing the replay file)
 		res := "node-conflict:" + fs[0].Fingerprint + ":" + strings.ReplaceAll(fs[0].Desc, " ", "_")
-		os.MkdirAll("/verif/replays", 0o755)
-		wit := fmt.Sprintf("/verif/replays/C04-node-journal-%d.txt", time.Now().UnixNano())
+		dir := "/verif/replays"
+		if f := flag.Lookup("replays"); f != nil && f.Value.String() != "" {
+			dir = f.Value.String()
+		}
+		os.MkdirAll(dir, 0o755)
+		wit := filepath.Join(dir, fmt.Sprintf("C04-node-journal-%d.txt", time.Now().UnixNano()))
 		if os.WriteFile(wit, []byte(label+"\n"+strings.Join(outs, "\n")+"\n"), 0o644) == nil {
 			res += "_[journal:" + wit + "]"
 		}
